@@ -46,6 +46,7 @@ pub fn expected_nodes(snap: &Snapshot, q: &str, target: &Id) -> Vec<(Id, SocketA
 pub fn check_server_replies(sim: &Sim, servers: &[HostId], snaps: &BTreeMap<(HostId, u64), Rc<Snapshot>>, report: &mut Report) {
     let mut checked = 0u64;
     let mut with_stale = 0u64;
+    let mut with_big_value = 0u64;
     let findings: Vec<(String, String)> = sim.with_trace(|tr| {
         let mut out = vec![];
         for h in servers {
@@ -76,6 +77,9 @@ pub fn check_server_replies(sim: &Sim, servers: &[HostId], snaps: &BTreeMap<(Hos
                 let got = reply.nodes().unwrap_or_default();
                 let want = expected_nodes(snap, q, &target);
                 checked += 1;
+                if reply.bytes_field("v").map(|v| v.len() >= 780).unwrap_or(false) {
+                    with_big_value += 1;
+                }
                 if [&snap.routing_table, &snap.signed_peers_routing_table].iter().any(|t| t.buckets.iter().any(|(_, b)| b.iter().any(|n| n.age_ns > 15 * 60 * SEC))) {
                     with_stale += 1;
                 }
@@ -110,6 +114,7 @@ pub fn check_server_replies(sim: &Sim, servers: &[HostId], snaps: &BTreeMap<(Hos
     });
     report.probe("server_replies_checked", checked);
     report.probe("server_replies_checked_while_the_table_held_stale_members", with_stale);
+    report.probe("server_replies_checked_carrying_a_value_of_780_bytes_or_more", with_big_value);
     if let Some((key, detail)) = findings.into_iter().next() {
         report.violate("closest", &key, detail);
     }
@@ -388,6 +393,32 @@ fn run(ctx: &RunCtx) -> Report {
     // raw readers
     let reader = SocketAddrV4::new(if public { pub_ip(&mut rng) } else { priv_ip(5000) }, 5000);
     let (_, _log) = logging_raw(&sim, reader);
+    // 1 run in 3: the servers hold data for some of the targets that will be read - immutable values of
+    // 1..1000 bytes and announced peers (a raw writer fetches a token and writes): replies that carry a
+    // value carry the same node list
+    let mut stored_targets: Vec<Id> = vec![];
+    if rng.chance(1, 3) {
+        let writer = SocketAddrV4::new(if public { pub_ip(&mut rng) } else { priv_ip(5001) }, 5001);
+        let (_, wlog) = logging_raw(&sim, writer);
+        for j in 0..rng.usize(1, 4) {
+            let len = *rng.pick(&[1usize, 100, 700, 780, 800, 900, 999, 1000]);
+            let v = rng.bytes(len);
+            let t = krpc::immutable_target(&v);
+            stored_targets.push(t);
+            for (hi, h) in servers.iter().enumerate() {
+                let srv = sim.node_addr(*h);
+                let tid = 2000 + (j * 8 + hi) as u32;
+                sim.raw_send(writer, srv, krpc::query(&krpc::tid_bytes(tid), "get", krpc::get_args(&[2u8; 20], &t, None), &MsgOpts::default()));
+                sim.run_for(300 * MS);
+                let token = wlog.borrow().iter().rev().filter(|(_, from, _)| *from == srv).filter_map(|(_, _, b)| Krpc::parse(b)).filter_map(|k| k.token().map(|t| t.to_vec())).next();
+                if let Some(token) = token {
+                    sim.raw_send(writer, srv, krpc::query(&krpc::tid_bytes(tid + 500), "put", krpc::put_immutable_args(&[2u8; 20], &t, &v, &token), &MsgOpts::default()));
+                    sim.run_for(100 * MS);
+                }
+            }
+        }
+        report.probe("runs_with_stored_values", 1);
+    }
     let n_reads = rng.usize(5, 40);
     report.elements = n_reads;
     let mut plan = vec![];
@@ -461,7 +492,11 @@ fn run(ctx: &RunCtx) -> Report {
             }
             _ => {}
         }
-        let q = *r.pick(&["find_node", "get", "get_peers", "get_signed_peers"]);
+        let mut q = *r.pick(&["find_node", "get", "get_peers", "get_signed_peers"]);
+        if !stored_targets.is_empty() && r.chance(1, 3) {
+            t = stored_targets[r.usize(0, stored_targets.len() - 1)];
+            q = "get";
+        }
         let (h, t, q) = if churn && i >= half && i - half < asked.len() { asked[i - half] } else { (h, t, q) };
         asked.push((h, t, q));
         let args = match q {
